@@ -104,10 +104,13 @@ func r2wSum(d *[43]int8, w int) verif.Int {
 	return acc
 }
 
-//verif:ob prop=C03,C09,C06 name=L2_pippengerGeneric_w8_terminal_carry_column mode=bv tags=purego use=pt,r2wabs native=1 split=c0:0..3;dv:0..5 timeout=300
+//verif:ob prop=C03 name=L2_pippengerGeneric_w8_terminal_carry_column mode=bv tags=purego use=pt,r2wabs native=1 split=c0:0..3;dv:0..5 timeout=300
 func vh_L2_pippenger_w8() { vh_L2_pippenger() }
 
-//verif:ob prop=C03,C09,C06 name=L2_pippengerGeneric_static_dynamic mode=bv tags=purego use=pt,r2wabs native=1 split=w:6..7;c0:0..3 tsplit=w:6..7;cx:0..42 timeout=300
+//verif:ob prop=C03 name=L2_pippengerGeneric_w7 mode=bv tags=purego use=pt,r2wabs native=1 split=w:7;c0:0+3 tier=quickonly timeout=300
+func vh_L2_pippenger_w7() { vh_L2_pippenger() }
+
+//verif:ob prop=C03,C09,C06 name=L2_pippengerGeneric_static_dynamic mode=bv tags=purego use=pt,r2wabs native=1 split=w:6;c0:0..3 tsplit=w:6..7;cx:0..42 timeout=300
 func vh_L2_pippenger() {
 	if verif.Native() {
 		pippengerEndToEnd()
